@@ -159,6 +159,18 @@ class Cfg(object):
 
 
 TOKEN_LEN = 8
+STATEMENT_CLASSES = ("MQTTWindowError", "MQTTStateError", "MQTTTimeoutError", "MQTTSessionCleared")
+
+
+def _ename(e):
+    """Name under which an exception is recorded: the class the statements name if it is an instance of one
+    (a subclass of MQTTStateError is an MQTTStateError), otherwise its own class name."""
+    names = [c.__name__ for c in type(e).__mro__]
+    for n in names:
+        if n in STATEMENT_CLASSES:
+            return n
+    return names[0]
+
 SHARED_FILTERS = ("shared/filter/used/again/and/again/in/every/list/+/one", "shared/filter/used/again/and/again/in/every/list/#")
 
 
@@ -415,7 +427,7 @@ class World(object):
         except Exception as e:
             self.last_raised = e
             self.in_api = prev_api
-            self.ev("api_ret", op=op, conn=c.idx, call=call["i"], raised=type(e).__name__,
+            self.ev("api_ret", op=op, conn=c.idx, call=call["i"], raised=_ename(e), eclass=type(e).__name__,
                     exc_is_value=isinstance(e, ValueError), exc_is_type=isinstance(e, TypeError),
                     msg=str(e)[:120])
             return None
@@ -434,12 +446,12 @@ class World(object):
             def rec(res, did=did, c=c, req=req):
                 if isinstance(res, failure.Failure):
                     v = res.value
-                    self.ev("fire", did=did, ok=False, etype=type(v).__name__, op=op, conn=c.idx, a=c.a,
+                    self.ev("fire", did=did, ok=False, etype=_ename(v), eclass=type(v).__name__, op=op, conn=c.idx, a=c.a,
                             is_value=isinstance(v, ValueError), is_type=isinstance(v, TypeError),
                             is_reason=(getattr(c, "loss_reason", None) is not None
                                        and v is c.loss_reason.value),
                             msg=str(v)[:120])
-                    if (self.cfg.re_on_refuse and op == "connect" and type(v).__name__ == "MQTTStateError"
+                    if (self.cfg.re_on_refuse and op == "connect" and _ename(v) == "MQTTStateError"
                             and self.depth == 0 and not self.ended and info.get("why") != "retry"):
                         # an application that reacts to a refusal from inside the errback
                         self.depth += 1
